@@ -82,7 +82,7 @@ fn packs<P: SimPrefix>(ctx: &mut Ctx, w: &mut World<P>) -> R {
             pack_c10_map(ctx, &cfg, &mut w.maps[i].real, &t)?;
         }
         if ctx.wants("C11") {
-            pack_c11(ctx, &cfg, w.maps[i].real.view(), &t, canonical)?;
+            pack_c11(ctx, &cfg, &w.maps[i].real, &t, canonical)?;
             pack_c11_mut(ctx, &cfg, &mut w.maps[i].real, &t, canonical)?;
         }
         if ctx.wants("C12") {
@@ -131,7 +131,8 @@ fn packs<P: SimPrefix>(ctx: &mut Ctx, w: &mut World<P>) -> R {
             pack_c10_set(ctx, &cfg, &w.sets[i].real, &t)?;
         }
         if ctx.wants("C11") {
-            pack_c11(ctx, &cfg, w.sets[i].real.view(), &t, canonical)?;
+            pack_c11(ctx, &cfg, &w.sets[i].real, &t, canonical)?;
+            pack_c11_mut(ctx, &cfg, &mut w.sets[i].real, &t, canonical)?;
         }
         if ctx.wants("C12") {
             pack_c12(ctx, &cfg, w.sets[i].real.view(), &t)?;
